@@ -52,6 +52,10 @@ def gen(tier, seed):
         for tables in (['edge_node'], ['edge_node', 'edge_face'], ['edge_node', 'face_edge', 'edge_face', 'face_face']):
             yield {'mesh': mesh, 'start_index': 0, 'fill': 'auto', 'transposed': False, 'tables': tables, 'edge_dimension': 'auto',
                    'coords_as': 'vars', 'edge_order': 'reverse'}
+    for mesh in meshes:     # unsigned index tables whose missing entries are the type's default fill value, named by a _FillValue attribute
+        for si, tr, tables in ((0, False, []), (1, True, ['face_edge', 'face_face']), (1, False, ['edge_node', 'edge_face'])):
+            yield {'mesh': mesh, 'start_index': si, 'fill': 'uint_fill', 'transposed': tr, 'tables': tables, 'edge_dimension': 'auto',
+                   'coords_as': 'vars', 'edge_order': 'first-seen'}
     for mesh in meshes:     # an edge dimension named by the mesh on which no variable is defined (it has no size): every edge table is derived
         for orphan in (False, True):
             yield {'mesh': mesh, 'start_index': 0, 'fill': 'auto', 'transposed': False, 'tables': [], 'edge_dimension': True, 'edge_values': False,
